@@ -379,4 +379,10 @@ def corpus_descs():
                  cc.param("f", dict(k="value", dop=dict(k="eop", s=cc.struct([cc.param("m", dict(k="value", dop=mx0, dflt=None))])), dflt=None))],
                 False, [{"f": [{"m": ["c1", {"d": 0x5A}]}]}, {"f": []}],
                 [bytes.fromhex(h) for h in ("22015a02", "2202", "22015a015b", "22015a0201", "2203")]))
+    # ... and items which are dynamic-length fields whose items start AT the count (OFFSET 0): a count of 0 leaves the
+    # cursor where the item began (decoding only: the encoder rejects an offset in front of the end of the count)
+    dl0 = dict(k="dynlen", s=cc.struct([cc.param("x", dict(k="value", dop=u8(), dflt=None))]), offset=0, cb=0, cbit=0, cnt=u8())
+    out.append(([cc.param("sid", dict(k="coded", dct=cc.std(cc.BUINT, 8), v=0x22)),
+                 cc.param("f", dict(k="value", dop=dict(k="eop", s=cc.struct([cc.param("l", dict(k="value", dop=dl0, dflt=None))])), dflt=None))],
+                False, [{"f": []}], [bytes.fromhex(h) for h in ("220100", "2200", "22010100", "2201", "220201")]))
     return out
